@@ -153,7 +153,7 @@ def draw_label_codes(draw, n: int, ngroups: int, style: str):
     raise KeyError(style)
 
 
-LABEL_STYLES = ["random", "random", "sorted", "runs", "periodic", "constant", "blocks"]
+LABEL_STYLES = ["random", "random", "sorted", "runs", "periodic", "constant", "blocks", "random", "sorted", "runs", "periodic", "blocks", "distinct"]
 
 
 def draw_labels(draw, n: int, *, kinds=None, max_groups=6, missing=True, styles=None, allow_all_missing=False):
@@ -163,7 +163,16 @@ def draw_labels(draw, n: int, *, kinds=None, max_groups=6, missing=True, styles=
     pool = label_pool(draw, kind, ngroups)
     ngroups = len(pool)
     style = draw(st.sampled_from(styles or LABEL_STYLES))
-    codes = draw_label_codes(draw, n, ngroups, style)
+    if style == "distinct":
+        # every element is a group of its own (number of groups == length of the axis: flox has shortcuts for this)
+        big = label_pool(draw, kind, max(n, 1))
+        if len(big) >= n > 0:
+            pool, ngroups = big, len(big)
+            codes = list(range(n))
+        else:
+            style = "random"
+    if style != "distinct":
+        codes = draw_label_codes(draw, n, ngroups, style)
     vals = [pool[c] for c in codes]
     nmissing = 0
     if missing and kind in ("float", "floatint", "f4") and n > 0:
